@@ -275,6 +275,22 @@ def check_history(run, ops, shortcut):
                             fail("model-does-not-satisfy", i, "the model %r does not satisfy the live assertions%s" % (
                                 I, " and the formula of the one-shot query" if oneshot else ""))
                             return
+                        if i % 2 == 0:
+                            # print_model(): one "symbol = value" line per declared constant, same values
+                            import io, contextlib
+                            buf = io.StringIO()
+                            with contextlib.redirect_stdout(buf):
+                                with_timeout(20, lambda: solver.print_model())
+                            printed = dict(l.split(" = ", 1) for l in buf.getvalue().splitlines() if " = " in l)
+                            run.cls("op:print_model")
+                            for (n, t) in sorted(needed, key=repr):
+                                if t[0] in ("Fun", "Sort"):
+                                    continue
+                                s = pys.build(env, sym(n, t))
+                                if printed.get(str(s)) != str(model.get_value(s)):
+                                    fail("print-model", i, "print_model() shows %s = %r, get_model() gives %s" % (
+                                        s, printed.get(str(s)), model.get_value(s)))
+                                    return
                     elif op[0] == "get_value":
                         if sat_state is not True:
                             continue
@@ -511,7 +527,7 @@ def main():
     thorough = chk.tier == "thorough"
     jobs = [(shard, dict(shard=s, seed=chk.seed, n=1500 if thorough else 90)) for s in range(16)]
     chk.add(run_shards(jobs))
-    for c in ("op:push", "op:pop", "op:get_model", "op:get_value", "op:reset", "op:is_valid", "nontrivial-history",
+    for c in ("op:push", "op:pop", "op:get_model", "op:print_model", "op:get_value", "op:reset", "op:is_valid", "nontrivial-history",
               "shortcut:is_sat", "shortcut:get_model"):
         chk.floor(c, 30)
     return chk.finish()
